@@ -1,17 +1,17 @@
 #!/bin/bash
 # usage: tools/verify_seed.sh <id> <test-filter> [extra cargo test args]
 # Confirms in the agent's scratch worktree: unit tests pass with the defect (demo excluded), the demo fails with it and passes without it.
-ID=$1; FILTER=${2:-seeded_demo}
+ID=$1; FILTER=${2:-seeded_demo}; PKG=${PKG:--p worterbuch --lib}
 D=/tmp/seed-$ID; W=$D/wt; export CARGO_TARGET_DIR=$D/target
 cd $W || exit 2
 git checkout -q -- . && git clean -fdq -e target
 git apply $D/patch.diff || { echo "patch does not apply"; exit 2; }
 echo "--- unit tests with the defect (no demo)"
-cargo test --offline -p worterbuch --lib -p worterbuch-common -p worterbuch-client 2>&1 | grep -E "^test result|FAILED|panicked" | head -8
+cargo test --offline -p worterbuch --lib -p worterbuch-common -p worterbuch-client -p worterbuch-cluster-orchestrator 2>&1 | grep -E "^test result|FAILED|panicked" | head -8
 git apply $D/demo.diff || { echo "demo does not apply"; exit 2; }
 echo "--- demo with the defect (must fail)"
-cargo test --offline -p worterbuch --lib $FILTER 2>&1 | grep -E "^test result|^test .*(ok|FAILED)" | head -6
+cargo test --offline $PKG $FILTER 2>&1 | grep -E "^test result|^test .*(ok|FAILED)" | head -6
 git apply -R $D/patch.diff || { echo "cannot revert defect"; exit 2; }
 echo "--- demo without the defect (must pass)"
-cargo test --offline -p worterbuch --lib $FILTER 2>&1 | grep -E "^test result|^test .*(ok|FAILED)" | head -6
+cargo test --offline $PKG $FILTER 2>&1 | grep -E "^test result|^test .*(ok|FAILED)" | head -6
 git checkout -q -- . && git clean -fdq -e target
